@@ -63,6 +63,7 @@ void sp_free_setup(sp_setup *S);
 void sp_describe(const sp_setup *S, char *out, size_t n);
 
 /* ---- writer ---- */
+void sp_book_make_lattice(sp_book *b,int dim,long entries);   /* lookup type 1, valid ordered lengths, the multiplicand count the specification implies */
 void sp_write_headers(const sp_setup *S, buf_t *id, buf_t *comment, buf_t *setup);   /* writes whatever the model holds, legal or not */
 /* a random valid stream: 3 headers + npackets audio packets with granule positions (per packet), eos on the last.
    flags: 1 = end-trim the last packet (granule short of the full count), 2 = large amplitudes */
